@@ -453,19 +453,36 @@ inductive Shape (w : World) : Ev → World → Prop
       (hc : w'.conns = w.conns ++ [freshConn w i]) (hph : w'.phase = .connackGate w.conns.length)
       (hw : w'.waits = w.waits) (he : w'.waitExp = w.waitExp) (hd : w'.dials = w.dials)
       (hs : w'.stopped = w.stopped) : Shape w (.dialOk i) w'
-  | dialFail (hp : w.phase = .dialGate) :
+  | dialFail (hp : w.phase = .dialGate) (hs0 : w.stopped = false) :
       Shape w .dialFail { w with waits := w.waits ++ [w.waitExp], waitExp := w.waitExp + 1, dials := w.dials + 1 }
-  /-- CONNACK accepted: `w1` is the world just before the goroutine's `progress` -/
-  | connOk (sp : Bool) (inb : List (Nat × Nat)) (k : Nat) (hp : w.phase = .connackGate k) (w1 : World)
+  /-- a dial error after Disconnect: the loop's select sees `disconnected` and returns -/
+  | dialFailStopped (hp : w.phase = .dialGate) (hs0 : w.stopped = true) :
+      Shape w .dialFail { w with phase := .exited }
+  /-- CONNACK accepted, Disconnect not called: `w1` is the world just before the goroutine's `progress` -/
+  | connOk (sp : Bool) (inb : List (Nat × Nat)) (k : Nat) (hp : w.phase = .connackGate k)
+      (hs0 : w.stopped = false) (w1 : World)
       (hc : ConnsExt w.conns w1.conns) (hph : w1.phase = .up k)
       (hw : w1.waits = w.waits) (he : w1.waitExp = 0) (hd : w1.dials = w.dials)
       (hs : w1.stopped = w.stopped) : Shape w (.connackOk sp inb) (loopReact w1)
-  /-- CONNACK refused or timed out -/
+  /-- CONNACK accepted after Disconnect: the loop returns at once instead of watching the connection
+      (the queued Disconnect task closes it) -/
+  | connOkStopped (sp : Bool) (inb : List (Nat × Nat)) (k : Nat) (hp : w.phase = .connackGate k)
+      (hs0 : w.stopped = true) (w' : World)
+      (hc : ConnsExt w.conns w'.conns) (hph : w'.phase = .exited)
+      (hw : w'.waits = w.waits) (he : w'.waitExp = 0) (hd : w'.dials = w.dials)
+      (hs : w'.stopped = w.stopped) : Shape w (.connackOk sp inb) w'
+  /-- CONNACK refused or timed out, Disconnect not called: back off and dial again -/
   | connFail (ev : Ev) (hev : ev = .connackRefused ∨ ev = .connackNever) (k : Nat)
-      (hp : w.phase = .connackGate k) (w' : World)
+      (hp : w.phase = .connackGate k) (hs0 : w.stopped = false) (w' : World)
       (hc : ConnsExt w.conns w'.conns) (hdead : k < w.conns.length → (getConn w' k).alive = false)
       (hph : w'.phase = .dialGate)
       (hw : w'.waits = w.waits ++ [w.waitExp]) (he : w'.waitExp = w.waitExp + 1) (hd : w'.dials = w.dials + 1)
+      (hs : w'.stopped = w.stopped) : Shape w ev w'
+  /-- CONNACK refused or timed out after Disconnect: the loop exits -/
+  | connFailStopped (ev : Ev) (hev : ev = .connackRefused ∨ ev = .connackNever) (k : Nat)
+      (hp : w.phase = .connackGate k) (hs0 : w.stopped = true) (w' : World)
+      (hc : ConnsExt w.conns w'.conns) (hph : w'.phase = .exited)
+      (hw : w'.waits = w.waits) (he : w'.waitExp = w.waitExp) (hd : w'.dials = w.dials)
       (hs : w'.stopped = w.stopped) : Shape w ev w'
   | disc (hs0 : w.stopped = false) (w1 : World)
       (hc : ConnsExt w.conns w1.conns) (hph : w1.phase = w.phase)
@@ -473,25 +490,61 @@ inductive Shape (w : World) : Ev → World → Prop
       (hs : w1.stopped = true) :
       Shape w .disconnect { loopReact w1 with phase := discPhase (loopReact w1).phase }
 
-theorem connectFailed_shape (w : World) (k : Nat) (ev : Ev) (hev : ev = .connackRefused ∨ ev = .connackNever)
-    (hp : w.phase = .connackGate k) : Shape w ev (progress (connectFailed w k)) := by
+theorem connectFailed_spec (w : World) (k : Nat) :
+    ConnsExt w.conns (connectFailed w k).conns ∧
+    (k < w.conns.length → (getConn (connectFailed w k) k).alive = false) ∧
+    (connectFailed w k).stopped = w.stopped ∧
+    (w.stopped = true → (connectFailed w k).phase = .exited ∧ (connectFailed w k).waits = w.waits ∧
+        (connectFailed w k).waitExp = w.waitExp ∧ (connectFailed w k).dials = w.dials) ∧
+    (w.stopped = false → (connectFailed w k).phase = .dialGate ∧
+        (connectFailed w k).waits = w.waits ++ [w.waitExp] ∧
+        (connectFailed w k).waitExp = w.waitExp + 1 ∧ (connectFailed w k).dials = w.dials + 1) := by
   have hk : Frame w (kill { w with connReady := true } k) :=
     ((Frame.refl w).upd (w' := { w with connReady := true }) rfl rfl).trans (frame_kill _ _)
+  have hdead : k < w.conns.length → (getConn (kill { w with connReady := true } k) k).alive = false :=
+    fun hlt => kill_dead { w with connReady := true } k hlt
+  have hw := hk.waits
+  have he := hk.waitExp
+  have hd := hk.dials
+  have hs := hk.stopped
+  have hc := hk.1
+  unfold connectFailed
+  generalize kill { w with connReady := true } k = wk at *
+  simp only
+  split
+  · rename_i hst
+    refine ⟨hc, hdead, hs, fun _ => ⟨rfl, hw, he, hd⟩, fun h0 => ?_⟩
+    rw [← hs, hst] at h0; cases h0
+  · rename_i hst
+    refine ⟨hc, hdead, hs, fun h1 => ?_, fun _ => ⟨rfl, ?_, ?_, ?_⟩⟩
+    · rw [← hs] at h1; exact absurd h1 hst
+    · show wk.waits ++ [wk.waitExp] = _; rw [hw, he]
+    · show wk.waitExp + 1 = _; rw [he]
+    · show wk.dials + 1 = _; rw [hd]
+
+theorem connectFailed_shape (w : World) (k : Nat) (ev : Ev) (hev : ev = .connackRefused ∨ ev = .connackNever)
+    (hp : w.phase = .connackGate k) : Shape w ev (progress (connectFailed w k)) := by
+  obtain ⟨hc, hdead, hs, hT, hF⟩ := connectFailed_spec w k
   have hf := frame_runTasks ((connectFailed w k).taskQ.length + 1) (connectFailed w k)
-  have hph : (runTasks ((connectFailed w k).taskQ.length + 1) (connectFailed w k)).phase = .dialGate := hf.phase
+  have hnu : ∀ k', (runTasks ((connectFailed w k).taskQ.length + 1) (connectFailed w k)).phase ≠ .up k' := by
+    intro k'
+    rw [hf.phase]
+    cases hst : w.stopped
+    · rw [(hF hst).1]; simp
+    · rw [(hT hst).1]; simp
   have hlr : progress (connectFailed w k) = runTasks ((connectFailed w k).taskQ.length + 1) (connectFailed w k) := by
     unfold progress
-    exact loopReact_of_not_up _ (by intro k'; rw [hph]; simp)
+    exact loopReact_of_not_up _ hnu
   rw [hlr]
-  refine Shape.connFail ev hev k hp _ ?_ ?_ hph ?_ ?_ ?_ ?_
-  · exact ConnsExt.trans (b := (connectFailed w k).conns) hk.1 hf.1
-  · intro hlt
-    apply hf.dead
-    exact kill_dead { w with connReady := true } k hlt
-  · rw [hf.waits]; simp only [connectFailed]; rw [hk.waits, hk.waitExp]
-  · rw [hf.waitExp]; simp only [connectFailed]; rw [hk.waitExp]
-  · rw [hf.dials]; simp only [connectFailed]; rw [hk.dials]
-  · rw [hf.stopped]; exact hk.stopped
+  cases hst : w.stopped
+  · obtain ⟨f1, f2, f3, f4⟩ := hF hst
+    exact Shape.connFail ev hev k hp hst _ (hc.trans hf.1) (fun hlt => hf.dead (hdead hlt))
+      (hf.phase.trans f1) (hf.waits.trans f2) (hf.waitExp.trans f3) (hf.dials.trans f4)
+      (hf.stopped.trans hs)
+  · obtain ⟨f1, f2, f3, f4⟩ := hT hst
+    exact Shape.connFailStopped ev hev k hp hst _ (hc.trans hf.1)
+      (hf.phase.trans f1) (hf.waits.trans f2) (hf.waitExp.trans f3) (hf.dials.trans f4)
+      (hf.stopped.trans hs)
 
 theorem disc_match (w : World) :
     (match w.phase with
@@ -510,17 +563,25 @@ theorem step_disconnect (w : World) :
               phase := discPhase (progress { pushTask w .disconnect with stopped := true }).phase } := by
   rw [← disc_match]; rfl
 
-/-- the world just before `progress` in the `.connackOk` step (copied from `step`) -/
-def connackOkPre (w : World) (k : Nat) (sp : Bool) (inbound : List (Nat × Nat)) : World :=
+/-- `.connackOk`, first part: the connection is marked connected, the inbound burst served, the
+    loop resets its wait (copied from `step`) -/
+def cokB (w : World) (k : Nat) (sp : Bool) (inbound : List (Nat × Nat)) : World :=
   let c := getConn w k
   let w := setConn w k { c with connected := true }
   let w := { w with broker := if sp then w.broker else w.broker.clearSession }
   let w := inbound.foldl (fun w (mq : Nat × Nat) => deliverInbound w k mq.1 mq.2) w
-  let w := { w with connReady := true, waitExp := 0,
-                    connectReturned := if w.connectReturned.isNone then some sp else w.connectReturned }
-  let w := if w.initialized ∧ (¬ sp ∨ w.cfg.always) then pushTask w .resubscribe else w
-  let w := pushTask w .retry
-  { w with initialized := true, phase := .up k }
+  { w with connReady := true, waitExp := 0,
+           connectReturned := if w.connectReturned.isNone then some sp else w.connectReturned }
+
+/-- `.connackOk`, second part: Resubscribe / Retry are queued unless Disconnect was called -/
+def cokC (w : World) (sp : Bool) : World :=
+  let w := if w.initialized ∧ (¬ sp ∨ w.cfg.always) ∧ ¬ w.stopped then pushTask w .resubscribe else w
+  if w.stopped then w else pushTask w .retry
+
+/-- the world just before `progress` in the `.connackOk` step -/
+def connackOkPre (w : World) (k : Nat) (sp : Bool) (inbound : List (Nat × Nat)) : World :=
+  let w := cokC (cokB w k sp inbound) sp
+  { w with initialized := true, phase := if w.stopped then .exited else .up k }
 
 theorem step_connackOk (w : World) (sp : Bool) (inb : List (Nat × Nat)) :
     step w (.connackOk sp inb) =
@@ -528,9 +589,25 @@ theorem step_connackOk (w : World) (sp : Bool) (inb : List (Nat × Nat)) :
       | .connackGate k => progress (connackOkPre w k sp inb)
       | _ => w := rfl
 
-theorem connackOkPre_spec (w : World) (k : Nat) (sp : Bool) (inb : List (Nat × Nat)) :
-    let w1 := connackOkPre w k sp inb
-    ConnsExt w.conns w1.conns ∧ w1.phase = .up k ∧ w1.waits = w.waits ∧ w1.waitExp = 0 ∧
+theorem frame_pushTask (w : World) (t : Task) : Frame w (pushTask w t) := (Frame.refl w).upd rfl rfl
+
+theorem frame_cokC (w : World) (sp : Bool) : Frame w (cokC w sp) := by
+  unfold cokC
+  by_cases hc : w.initialized ∧ (¬ sp ∨ w.cfg.always) ∧ ¬ w.stopped
+  · rw [if_pos hc]
+    dsimp only
+    split
+    · exact frame_pushTask _ _
+    · exact (frame_pushTask _ _).trans (frame_pushTask _ _)
+  · rw [if_neg hc]
+    dsimp only
+    split
+    · exact Frame.refl _
+    · exact frame_pushTask _ _
+
+theorem cokB_spec (w : World) (k : Nat) (sp : Bool) (inb : List (Nat × Nat)) :
+    let w1 := cokB w k sp inb
+    ConnsExt w.conns w1.conns ∧ w1.waits = w.waits ∧ w1.waitExp = 0 ∧
       w1.dials = w.dials ∧ w1.stopped = w.stopped := by
   have ha : Frame w (setConn w k { getConn w k with connected := true }) :=
     frame_setConn _ _ _ (CExt.of_eq rfl rfl)
@@ -538,22 +615,20 @@ theorem connackOkPre_spec (w : World) (k : Nat) (sp : Bool) (inb : List (Nat × 
       broker := if sp then (setConn w k { getConn w k with connected := true }).broker
                 else (setConn w k { getConn w k with connected := true }).broker.clearSession }) rfl rfl
   have hc := hb.trans (frame_foldl_deliverInbound k inb _)
-  simp only [connackOkPre]
+  simp only [cokB]
   generalize List.foldl (fun w (mq : Nat × Nat) => deliverInbound w k mq.1 mq.2) _ inb = wc at hc
-  refine ⟨?_, trivial, ?_, ?_, ?_, ?_⟩
-  · split
-    · exact hc.1
-    · exact hc.1
-  · split
-    · exact hc.waits
-    · exact hc.waits
-  · split <;> rfl
-  · split
-    · exact hc.dials
-    · exact hc.dials
-  · split
-    · exact hc.stopped
-    · exact hc.stopped
+  exact ⟨hc.1, hc.waits, trivial, hc.dials, hc.stopped⟩
+
+theorem connackOkPre_spec (w : World) (k : Nat) (sp : Bool) (inb : List (Nat × Nat)) :
+    let w1 := connackOkPre w k sp inb
+    ConnsExt w.conns w1.conns ∧ (w1.phase = if w.stopped then .exited else .up k) ∧ w1.waits = w.waits ∧
+      w1.waitExp = 0 ∧ w1.dials = w.dials ∧ w1.stopped = w.stopped := by
+  obtain ⟨b1, b2, b3, b4, b5⟩ := cokB_spec w k sp inb
+  have hf := frame_cokC (cokB w k sp inb) sp
+  have hst : (cokC (cokB w k sp inb) sp).stopped = w.stopped := hf.stopped.trans b5
+  refine ⟨b1.trans hf.1, ?_, hf.waits.trans b2, hf.waitExp.trans b3, hf.dials.trans b4, hst⟩
+  show (if (cokC (cokB w k sp inb) sp).stopped = true then Phase.exited else Phase.up k) = _
+  rw [hst]
 
 theorem step_shape (w : World) (ev : Ev) : Shape w ev (step w ev) := by
   cases ev with
@@ -579,15 +654,29 @@ theorem step_shape (w : World) (ev : Ev) : Shape w ev (step w ev) := by
     split
     · exact Shape.frame _ _ (Frame.refl _) (AliveEq.refl _)
     · rename_i h
-      exact Shape.dialFail (by simpa using h)
+      split
+      · rename_i hs; exact Shape.dialFailStopped (by simpa using h) hs
+      · rename_i hs; exact Shape.dialFail (by simpa using h) (by simpa using hs)
   | connackOk sp inb =>
     rw [step_connackOk]
     split
     · rename_i k hk
       obtain ⟨h1, h2, h3, h4, h5, h6⟩ := connackOkPre_spec w k sp inb
       have hf := frame_runTasks ((connackOkPre w k sp inb).taskQ.length + 1) (connackOkPre w k sp inb)
-      exact Shape.connOk sp inb k hk _ (h1.trans hf.1) (hf.phase.trans h2) (hf.waits.trans h3)
-        (hf.waitExp.trans h4) (hf.dials.trans h5) (hf.stopped.trans h6)
+      cases hst : w.stopped
+      · rw [hst] at h2
+        exact Shape.connOk sp inb k hk hst _ (h1.trans hf.1) (hf.phase.trans h2) (hf.waits.trans h3)
+          (hf.waitExp.trans h4) (hf.dials.trans h5) (hf.stopped.trans h6)
+      · rw [hst] at h2
+        have hph : (runTasks ((connackOkPre w k sp inb).taskQ.length + 1) (connackOkPre w k sp inb)).phase
+            = .exited := hf.phase.trans h2
+        have hlr : progress (connackOkPre w k sp inb)
+            = runTasks ((connackOkPre w k sp inb).taskQ.length + 1) (connackOkPre w k sp inb) := by
+          unfold progress
+          exact loopReact_of_not_up _ (by intro k'; rw [hph]; simp)
+        rw [hlr]
+        exact Shape.connOkStopped sp inb k hk hst _ (h1.trans hf.1) hph (hf.waits.trans h3)
+          (hf.waitExp.trans h4) (hf.dials.trans h5) (hf.stopped.trans h6)
     · exact Shape.frame _ _ (Frame.refl _) (AliveEq.refl _)
   | connackRefused =>
     simp only [step]
@@ -729,7 +818,18 @@ theorem TInv.shape {w w' : World} {ev : Ev} (h : TInv w) (hs : Shape w ev w') : 
       simp at hk
       rw [hc]; simp [hk]
   | dialFail hp => exact ⟨h.1, h.2.1, h.2.2.1, h.2.2.2⟩
-  | connOk sp inb k hp w1 hc hph hw he hd hs =>
+  | dialFailStopped hp => exact ⟨h.1, by simp, by simp, by simp⟩
+  | connOkStopped sp inb k hp _ _ hc hph =>
+    refine ⟨?_, by simp [hph], by simp [hph], by simp [hph]⟩
+    intro j hj
+    rw [hc.1] at hj
+    exact hc.dead (h.1 j hj)
+  | connFailStopped _ hev k hp _ _ hc hph =>
+    refine ⟨?_, by simp [hph], by simp [hph], by simp [hph]⟩
+    intro j hj
+    rw [hc.1] at hj
+    exact hc.dead (h.1 j hj)
+  | connOk sp inb k hp _ w1 hc hph hw he hd hs =>
     apply TInv.loopReact
     have hlen := h.2.2.2 k (Or.inl hp)
     refine ⟨?_, by simp [hph], by simp [hph], ?_⟩
@@ -740,7 +840,7 @@ theorem TInv.shape {w w' : World} {ev : Ev} (h : TInv w) (hs : Shape w ev w') : 
       rw [hph] at hk'
       simp at hk'
       rw [hc.1, ← hk']; exact hlen
-  | connFail _ hev k hp _ hc hdead hph hw he hd hs =>
+  | connFail _ hev k hp _ _ hc hdead hph hw he hd hs =>
     have hlen := h.2.2.2 k (Or.inl hp)
     have h1 : ∀ j, j + 1 < w'.conns.length → (getConn w' j).alive = false := by
       intro j hj
@@ -816,8 +916,11 @@ theorem shape_conns {w w' : World} {ev : Ev} (hs : Shape w ev w') :
   | start hp => exact Or.inl (ConnsExt.refl _)
   | dialOk i hp _ hc => exact Or.inr ⟨i, hc⟩
   | dialFail hp => exact Or.inl (ConnsExt.refl _)
-  | connOk sp inb k hp w1 hc => left; rw [loopReact_conns]; exact hc
-  | connFail _ hev k hp _ hc => exact Or.inl hc
+  | dialFailStopped hp => exact Or.inl (ConnsExt.refl _)
+  | connOk sp inb k hp _ w1 hc => left; rw [loopReact_conns]; exact hc
+  | connOkStopped sp inb k hp _ _ hc => exact Or.inl hc
+  | connFail _ hev k hp _ _ hc => exact Or.inl hc
+  | connFailStopped _ hev k hp _ _ hc => exact Or.inl hc
   | disc hs0 w1 hc => left; show ConnsExt w.conns (loopReact w1).conns; rw [loopReact_conns]; exact hc
 
 theorem CInv.exec (s : Script) : CInv (exec s).conns := by
@@ -853,11 +956,14 @@ theorem shape_waits {w w' : World} {ev : Ev} (hs : Shape w ev w') :
   | start hp => exact Or.inl ⟨rfl, rfl⟩
   | dialOk i hp _ hc hph hw he hd hs => exact Or.inl ⟨hw, he⟩
   | dialFail hp => exact Or.inr (Or.inl ⟨rfl, rfl⟩)
-  | connOk sp inb k hp w1 hc hph hw he hd hs =>
+  | dialFailStopped hp => exact Or.inl ⟨rfl, rfl⟩
+  | connOkStopped sp inb k hp _ _ hc hph hw he => exact Or.inr (Or.inr (Or.inl ⟨hw, he⟩))
+  | connFailStopped _ hev k hp _ _ hc hph hw he => exact Or.inl ⟨hw, he⟩
+  | connOk sp inb k hp _ w1 hc hph hw he hd hs =>
     rcases loopReact_waits w1 with ⟨a, b⟩ | ⟨a, b⟩
     · right; right; left; rw [a, b]; exact ⟨hw, he⟩
     · right; right; right; rw [a, b, hw, he]; exact ⟨rfl, rfl⟩
-  | connFail _ hev k hp _ hc hdead hph hw he hd hs => exact Or.inr (Or.inl ⟨hw, he⟩)
+  | connFail _ hev k hp _ _ hc hdead hph hw he hd hs => exact Or.inr (Or.inl ⟨hw, he⟩)
   | disc hs0 w1 hc hph hw he hd hs =>
     show ((loopReact w1).waits = _ ∧ (loopReact w1).waitExp = _) ∨ ((loopReact w1).waits = _ ∧ (loopReact w1).waitExp = _) ∨
       ((loopReact w1).waits = _ ∧ (loopReact w1).waitExp = _) ∨ ((loopReact w1).waits = _ ∧ (loopReact w1).waitExp = _)
@@ -867,52 +973,85 @@ theorem shape_waits {w w' : World} {ev : Ev} (hs : Shape w ev w') :
 
 /-! #### (4) after Disconnect -/
 
-/-- stopped, and the loop is neither at the dial gate nor before its first dial -/
-def SInv (w : World) : Prop :=
-  w.stopped = true ∧ (w.phase = .exited ∨ ∃ k, w.phase = .connackGate k ∨ w.phase = .up k)
+/-- how many more dials a STOPPED loop can still make from a phase: one from `.idle` (the Go loop
+    dials before it first looks at `disconnected`), none otherwise -/
+def dialBudget : Phase → Nat
+  | .idle => 1
+  | _ => 0
 
-def Ev.connackFails : Ev → Prop
-  | .connackRefused => True
-  | .connackNever => True
-  | _ => False
+/-- how many more connections a STOPPED loop can still create: one if a dial is or will be in flight -/
+def connBudget : Phase → Nat
+  | .idle => 1
+  | .dialGate => 1
+  | _ => 0
 
-theorem SInv.loopReact {w : World} (h : SInv w) :
-    SInv (loopReact w) ∧ (loopReact w).dials = w.dials := by
+theorem stopped_loopReact {w : World} (h : w.stopped = true) :
+    (loopReact w).dials = w.dials ∧ dialBudget (loopReact w).phase ≤ dialBudget w.phase ∧
+      connBudget (loopReact w).phase ≤ connBudget w.phase := by
   rcases loopReact_cases w with ⟨e, _⟩ | ⟨k, hk, hd, _, e⟩ | ⟨k, hk, hd, hs, e⟩
-  · rw [e]; exact ⟨h, rfl⟩
-  · rw [e]; exact ⟨⟨h.1, Or.inl rfl⟩, rfl⟩
-  · rw [h.1] at hs; cases hs
+  · rw [e]; exact ⟨rfl, Nat.le_refl _, Nat.le_refl _⟩
+  · rw [e]; exact ⟨rfl, Nat.zero_le _, Nat.zero_le _⟩
+  · rw [h] at hs; cases hs
 
-theorem SInv.shape {w w' : World} {ev : Ev} (h : SInv w) (hev : ¬ ev.connackFails) (hs : Shape w ev w') :
-    SInv w' ∧ w'.dials = w.dials ∧ w'.conns.length = w.conns.length := by
-  obtain ⟨hst, hph⟩ := h
-  have hni : w.phase ≠ .idle := by rcases hph with h | ⟨k, h | h⟩ <;> rw [h] <;> simp
-  have hnd : w.phase ≠ .dialGate := by rcases hph with h | ⟨k, h | h⟩ <;> rw [h] <;> simp
+/-- Once `stopped`, every step keeps it, never lowers `dials` / the number of connections, and the
+    potentials `dials + dialBudget phase`, `conns.length + connBudget phase` never grow. -/
+theorem stopped_shape {w w' : World} {ev : Ev} (h : w.stopped = true) (hs : Shape w ev w') :
+    w'.stopped = true ∧ w.dials ≤ w'.dials ∧ w.conns.length ≤ w'.conns.length ∧
+      w'.dials + dialBudget w'.phase ≤ w.dials + dialBudget w.phase ∧
+      w'.conns.length + connBudget w'.phase ≤ w.conns.length + connBudget w.phase := by
   cases hs with
   | frame _ _ hf =>
-    exact ⟨⟨hf.stopped.trans hst, by rw [hf.phase]; exact hph⟩, hf.dials, hf.length⟩
+    refine ⟨hf.stopped.trans h, ?_, ?_, ?_, ?_⟩
+    · rw [hf.dials]; exact Nat.le_refl _
+    · rw [hf.length]; exact Nat.le_refl _
+    · rw [hf.dials, hf.phase]; exact Nat.le_refl _
+    · rw [hf.length, hf.phase]; exact Nat.le_refl _
   | react _ w1 hf =>
-    have h1 : SInv w1 := ⟨hf.stopped.trans hst, by rw [hf.phase]; exact hph⟩
-    exact ⟨h1.loopReact.1, h1.loopReact.2.trans hf.dials, by rw [loopReact_conns]; exact hf.length⟩
-  | start hp => exact absurd hp hni
-  | dialOk i hp => exact absurd hp hnd
-  | dialFail hp => exact absurd hp hnd
-  | connOk sp inb k hp w1 hc hph1 hw he hd hs =>
-    have h1 : SInv w1 := ⟨hs.trans hst, Or.inr ⟨k, Or.inr hph1⟩⟩
-    exact ⟨h1.loopReact.1, h1.loopReact.2.trans hd, by rw [loopReact_conns]; exact hc.1⟩
-  | connFail _ hev' =>
-    rcases hev' with rfl | rfl <;> exact absurd trivial hev
-  | disc hs0 => rw [hst] at hs0; cases hs0
+    have h1 : w1.stopped = true := hf.stopped.trans h
+    obtain ⟨a, b, c⟩ := stopped_loopReact h1
+    rw [hf.phase] at b c
+    refine ⟨by rw [loopReact_stopped]; exact h1, ?_, ?_, ?_, ?_⟩
+    · rw [a, hf.dials]; exact Nat.le_refl _
+    · rw [loopReact_conns, hf.length]; exact Nat.le_refl _
+    · rw [a, hf.dials]; omega
+    · rw [loopReact_conns, hf.length]; omega
+  | start hp =>
+    refine ⟨h, Nat.le_succ _, Nat.le_refl _, ?_, ?_⟩
+    · rw [hp]; exact Nat.le_refl _
+    · rw [hp]; exact Nat.le_refl _
+  | dialOk i hp _ hc hph hw he hd hs =>
+    refine ⟨hs.trans h, by rw [hd]; exact Nat.le_refl _, by rw [hc]; simp, ?_, ?_⟩
+    · rw [hd, hph, hp]; exact Nat.le_refl _
+    · rw [hc, hph, hp]; simp [connBudget]
+  | dialFail hp hs0 => rw [h] at hs0; cases hs0
+  | dialFailStopped hp =>
+    refine ⟨h, Nat.le_refl _, Nat.le_refl _, ?_, ?_⟩
+    · show w.dials + 0 ≤ _; omega
+    · show w.conns.length + 0 ≤ _; omega
+  | connOk sp inb k hp hs0 => rw [h] at hs0; cases hs0
+  | connOkStopped sp inb k hp _ _ hc hph hw he hd hs =>
+    refine ⟨hs.trans h, by rw [hd]; exact Nat.le_refl _, by rw [hc.1]; exact Nat.le_refl _, ?_, ?_⟩
+    · rw [hd, hph]; show w.dials + 0 ≤ _; omega
+    · rw [hc.1, hph]; show w.conns.length + 0 ≤ _; omega
+  | connFail _ hev k hp hs0 => rw [h] at hs0; cases hs0
+  | connFailStopped _ hev k hp _ _ hc hph hw he hd hs =>
+    refine ⟨hs.trans h, by rw [hd]; exact Nat.le_refl _, by rw [hc.1]; exact Nat.le_refl _, ?_, ?_⟩
+    · rw [hd, hph]; show w.dials + 0 ≤ _; omega
+    · rw [hc.1, hph]; show w.conns.length + 0 ≤ _; omega
+  | disc hs0 => rw [h] at hs0; cases hs0
 
-theorem SInv.foldl (evs : List Ev) (hev : ∀ e ∈ evs, ¬ e.connackFails) (w : World) (h : SInv w) :
-    SInv (evs.foldl step w) ∧ (evs.foldl step w).dials = w.dials ∧
-      (evs.foldl step w).conns.length = w.conns.length := by
+theorem stopped_foldl (evs : List Ev) (w : World) (h : w.stopped = true) :
+    (evs.foldl step w).stopped = true ∧ w.dials ≤ (evs.foldl step w).dials ∧
+      w.conns.length ≤ (evs.foldl step w).conns.length ∧
+      (evs.foldl step w).dials + dialBudget (evs.foldl step w).phase ≤ w.dials + dialBudget w.phase ∧
+      (evs.foldl step w).conns.length + connBudget (evs.foldl step w).phase
+        ≤ w.conns.length + connBudget w.phase := by
   induction evs generalizing w with
-  | nil => exact ⟨h, rfl, rfl⟩
+  | nil => exact ⟨h, Nat.le_refl _, Nat.le_refl _, Nat.le_refl _, Nat.le_refl _⟩
   | cons e evs ih =>
-    obtain ⟨h1, h2, h3⟩ := h.shape (hev e (by simp)) (step_shape w e)
-    obtain ⟨i1, i2, i3⟩ := ih (fun e' he' => hev e' (by simp [he'])) _ h1
-    exact ⟨i1, i2.trans h2, i3.trans h3⟩
+    obtain ⟨h1, h2, h3, h4, h5⟩ := stopped_shape h (step_shape w e)
+    obtain ⟨i1, i2, i3, i4, i5⟩ := ih _ h1
+    exact ⟨i1, Nat.le_trans h2 i2, Nat.le_trans h3 i3, Nat.le_trans i4 h4, Nat.le_trans i5 h5⟩
 
 /-- `.exited` is absorbing, whatever else holds -/
 theorem exited_shape {w w' : World} {ev : Ev} (h : w.phase = .exited) (hs : Shape w ev w') :
@@ -927,8 +1066,11 @@ theorem exited_shape {w w' : World} {ev : Ev} (h : w.phase = .exited) (hs : Shap
   | start hp => rw [h] at hp; cases hp
   | dialOk i hp => rw [h] at hp; cases hp
   | dialFail hp => rw [h] at hp; cases hp
+  | dialFailStopped hp => rw [h] at hp; cases hp
   | connOk sp inb k hp => rw [h] at hp; cases hp
+  | connOkStopped sp inb k hp => rw [h] at hp; cases hp
   | connFail _ hev' k hp => rw [h] at hp; cases hp
+  | connFailStopped _ hev' k hp => rw [h] at hp; cases hp
   | disc hs0 w1 hc hph hw he hd hs =>
     rw [hlr w1 (hph.trans h)]
     refine ⟨?_, hd, hc.1⟩
@@ -958,8 +1100,11 @@ theorem idle_shape {w w' : World} {ev : Ev} (h : w.phase = .idle) (hev : ev ≠ 
   | start hp => exact absurd rfl hev
   | dialOk i hp => rw [h] at hp; cases hp
   | dialFail hp => rw [h] at hp; cases hp
+  | dialFailStopped hp => rw [h] at hp; cases hp
   | connOk sp inb k hp => rw [h] at hp; cases hp
+  | connOkStopped sp inb k hp => rw [h] at hp; cases hp
   | connFail _ hev' k hp => rw [h] at hp; cases hp
+  | connFailStopped _ hev' k hp => rw [h] at hp; cases hp
   | disc hs0 w1 hc hph hw he hd hs =>
     rw [hlr w1 (hph.trans h)]
     refine ⟨?_, hd, hc.1⟩
@@ -1025,8 +1170,11 @@ theorem UInv.shape {w w' : World} {ev : Ev} (h : UInv w) (hs : Shape w ev w') : 
   | start hp => intro k hk; cases hk
   | dialOk i hp _ hc hph => intro k hk; rw [hph] at hk; cases hk
   | dialFail hp => intro k hk; exact absurd (hp ▸ hk) (by simp)
-  | connOk sp inb k hp w1 => exact hlr w1
-  | connFail _ hev k hp _ hc hdead hph => intro k hk; rw [hph] at hk; cases hk
+  | dialFailStopped hp => intro k hk; cases hk
+  | connOk sp inb k hp _ w1 => exact hlr w1
+  | connOkStopped sp inb k hp _ _ hc hph => intro k hk; rw [hph] at hk; cases hk
+  | connFail _ hev k hp _ _ hc hdead hph => intro k hk; rw [hph] at hk; cases hk
+  | connFailStopped _ hev k hp _ _ hc hph => intro k hk; rw [hph] at hk; cases hk
   | disc hs0 w1 => intro k hk; exact absurd hk (discPhase_ne_up _ k)
 
 theorem UInv.exec (s : Script) : UInv (exec s) :=
